@@ -18,7 +18,7 @@ for d in sorted(glob.glob(os.path.join(V, 'seeded', 'prefix-*'))):
                 res.append(f"{parts[0]} {parts[1]} `{' '.join(parts[3:])}` ({variant}, {parts[2].replace('secs=','')} s)")
     rows_prefix.append(f"| {name} | {'<br>'.join(res)} |")
 rows = []
-for d in sorted(glob.glob(os.path.join(V, 'seeded', 'C??-m?')) + glob.glob(os.path.join(V, 'seeded', 'F??-b?')) + glob.glob(os.path.join(V, 'seeded', 'M??-b?'))):
+for d in sorted(glob.glob(os.path.join(V, 'seeded', 'C??-m?')) + glob.glob(os.path.join(V, 'seeded', 'F??-b?')) + glob.glob(os.path.join(V, 'seeded', 'M??-b?')) + glob.glob(os.path.join(V, 'seeded', 'N?-b?'))):
     m = json.load(open(os.path.join(d, 'meta.json')))
     name = os.path.basename(d)
     res = m.get('results_in_order') or (m.get('results_first_run', []) + m.get('results_after_strengthening', []))
@@ -39,7 +39,7 @@ out.append("Applied with `tools/run_mutant.sh seeded/<name>/{fix.diff -R | mutan
 out.append("| mutant | caught by: check, exit, signature (variant, time incl. rebuild and shrinking) |\n|---|---|")
 out += rows_prefix
 out.append("\n### A.2 Changes written by independent sub-agents (given only the property text and a scratch worktree)\n")
-out.append("Each was confirmed with `tools/verify_mutant.sh` (existing 70 tests pass with the change, its demonstration fails with it and passes without it) and then run with `tools/run_mutant.sh seeded/<name>/patch.diff <ID>` (quick tier). m1/m2 = first round, m3/m4 = second round (agents were told the first-round changes and asked for different mechanisms), m5/m6 = third round, F??-b? = fourth round (one code region per agent), M??-b? = fifth round (one mechanism theme per agent).\n")
+out.append("Each was confirmed with `tools/verify_mutant.sh` (existing 70 tests pass with the change, its demonstration fails with it and passes without it) and then run with `tools/run_mutant.sh seeded/<name>/patch.diff <ID>` (quick tier). m1/m2 = first round, m3/m4 = second round (agents were told the first-round changes and asked for different mechanisms), m5/m6 = third round, F??-b? = fourth round (one code region per agent), M??-b? = fifth round (one mechanism theme per agent), N?-b? = sixth round (two or three properties per agent).\n")
 out.append("| change | what it does | needs | caught by | strengthening made after a miss |\n|---|---|---|---|---|")
 out += rows
 text = "\n".join(out) + "\n"
